@@ -249,14 +249,18 @@ impl<W: std::io::Write + std::io::Seek, E: crate::byteorder::Endianness> FlacByt
                 let buf_len = buf.len();
                 let buf = &mut buf[..(buf_len - buf_len % self.pcm_frame_size)];
 
-                // convert buffer to little-endian bytes
-                E::bytes_to_le(buf, self.bytes_per_sample);
+                // less than one whole PCM frame left over
+                // means there's nothing more to encode
+                if !buf.is_empty() {
+                    // convert buffer to little-endian bytes
+                    E::bytes_to_le(buf, self.bytes_per_sample);
 
-                // update MD5 sum with little-endian bytes
-                self.encoder.md5.consume(&buf);
+                    // update MD5 sum with little-endian bytes
+                    self.encoder.md5.consume(&buf);
 
-                self.encoder
-                    .encode(self.frame.fill_from_buf::<LittleEndian>(buf))?;
+                    self.encoder
+                        .encode(self.frame.fill_from_buf::<LittleEndian>(buf))?;
+                }
             }
 
             self.encoder.finalize_inner()
@@ -592,16 +596,20 @@ impl<W: std::io::Write + std::io::Seek> FlacSampleWriter<W> {
                 let buf_len = buf.len();
                 let buf = &mut buf[..(buf_len - buf_len % self.pcm_frame_size)];
 
-                // update running MD5 sum calculation
-                // since samples are already interleaved in channel order
-                update_md5(
-                    &mut self.encoder.md5,
-                    buf.iter().copied(),
-                    self.bytes_per_sample,
-                );
+                // less than one whole PCM frame left over
+                // means there's nothing more to encode
+                if !buf.is_empty() {
+                    // update running MD5 sum calculation
+                    // since samples are already interleaved in channel order
+                    update_md5(
+                        &mut self.encoder.md5,
+                        buf.iter().copied(),
+                        self.bytes_per_sample,
+                    );
 
-                // encode final FLAC frame
-                self.encoder.encode(self.frame.fill_from_samples(buf))?;
+                    // encode final FLAC frame
+                    self.encoder.encode(self.frame.fill_from_samples(buf))?;
+                }
             }
 
             self.encoder.finalize_inner()
